@@ -162,7 +162,7 @@ func (c *pathCtx) path(v ssa.Value) string {
 	case *ssa.Lookup:
 		return c.path(x.X) + "[" + c.path(x.Index) + "]"
 	case *ssa.Slice:
-		if a, ok := x.X.(*ssa.Alloc); ok && a.Comment == "varargs" && x.Low == nil && x.High == nil {
+		if a, ok := x.X.(*ssa.Alloc); ok && (a.Comment == "varargs" || a.Comment == "slicelit") && x.Low == nil && x.High == nil {
 			// variadic argument list: render the elements stored into the backing array
 			elems := map[int64]string{}
 			max := int64(-1)
@@ -186,7 +186,7 @@ func (c *pathCtx) path(v ssa.Value) string {
 			for i := int64(0); i <= max; i++ {
 				parts = append(parts, elems[i])
 			}
-			return "varargs[" + strings.Join(parts, ", ") + "]"
+			return a.Comment + "[" + strings.Join(parts, ", ") + "]"
 		}
 		s := deref(c.path(x.X)) + "["
 		if x.Low != nil {
